@@ -206,6 +206,8 @@ def random_history(rng, kind, nvals, nops, zero_tok=0, two=True, maxlen=40, bad=
                     L.append("concatv %d%s" % (o, "".join(" %d" % x for x in vs))); q.extend(vs)
             elif src in kinds and src != o and kinds[src] != "Tuple" and n + len(seqs[src]) <= maxlen:
                 L.append("concat %d %d" % (o, src)); q.extend(seqs[src])
+            elif src == o and selfcat and kd != "Tuple" and 0 < n and n + 2 <= maxlen and rng.random() < 0.5:
+                L.append("concatown %d" % o); q.extend([q[0], q[-1]] if n > 1 else [q[0]])        # concat with a Tuple of its own first and last elements
             elif src == o and selfcat and kd != "Tuple" and 0 < n and 2 * n <= maxlen:        # (a Tuple would then hold every object twice: F-C04-tuple-dup)
                 L.append("concat %d %d" % (o, o)); q.extend(list(q))           # concatenated with itself: doubled
             elif src not in kinds:
